@@ -346,6 +346,8 @@ def ok_source(v):
             # an operator on TwoFloat not resolved inside a private generic helper: every impl is either one of
             # the crate's (classified itself) or a downstream one, which can only use the public constructors
             return True
+        if n.startswith("core::option::Option::<T>::") or n.startswith("core::result::Result::<T, E>::"):
+            return True      # a combinator of core: it hands on what it was given or what a closure of this crate returns
         return any(n.startswith(x) for x in FOREIGN_OK)
     if t == "field":
         return True
